@@ -1455,7 +1455,7 @@ func main() {
 	r := rng.New(*seed)
 	nSeq, nConc, maxN, nRebuild, nRetry := 1000, 1000, 5, 16, 300
 	if *tier == "thorough" {
-		nSeq, nConc, maxN, nRebuild, nRetry = 20000, 20000, 6, 300, 6000
+		nSeq, nConc, maxN, nRebuild, nRetry = 20000, 20000, 6, 300, 4000
 	}
 	witnesses(cw)
 	// exhaustive release subsets, ascending release order, for 1..maxN caches (6 in the thorough tier);
